@@ -190,6 +190,55 @@ def run_shard(shard):
                         bad.append(("bnaf.block_structure", f"{tag}: BNAF layer {li}: block-diagonal weights not strictly positive or weights above the block triangle"))
         return bad
 
+    def conditioner_layer_invariants(model, tag):
+        """Effective transformers of coupling / masked-autoregressive layers (built from the conditioner's output at run time, so
+        not nodes of the model tree): their scales must be strictly positive and, for the factories' default transformer, at least
+        the configured minimum scale - whatever the conditioner weights are."""
+        from fjmon.pullback import steps_of
+
+        bad = []
+        root = getattr(model, "bijection", None)
+        if root is None or not isinstance(model, D.AbstractDistribution):
+            return bad
+        try:
+            steps = steps_of(root)
+        except Exception:  # noqa: BLE001
+            return bad
+        for st in steps:
+            core = st.bijection if isinstance(st, B.Invert) else st
+            if not isinstance(core, (B.MaskedAutoregressive, B.Coupling)):
+                continue
+            try:
+                u = unwrap(core)
+                dim = core.shape[0]
+                x = A(rng.standard_normal(dim) * 2)
+                c = None if core.cond_shape is None else A(rng.standard_normal(core.cond_shape))
+                if isinstance(core, B.MaskedAutoregressive):
+                    nn_in = x if c is None else jnp.hstack((x, c))
+                    prm = u.masked_autoregressive_mlp(nn_in)
+                else:
+                    xc = x[: core.untransformed_dim]
+                    prm = u.conditioner(xc if c is None else jnp.hstack((xc, c)))
+                tr = unwrap(core._flat_params_to_transformer(prm))
+                t0 = core.transformer_constructor(jnp.zeros(prm.shape[0] // (dim if isinstance(core, B.MaskedAutoregressive) else dim - core.untransformed_dim)))
+            except Exception:  # noqa: BLE001
+                continue
+            inner = tr.bijection
+            if hasattr(inner, "scale"):
+                sc = f64(inner.scale)
+                rec.count("pred_conditioner_transformer_scale", int(sc.size))
+                min_scale = 0.0
+                rp = getattr(t0, "scale", None)
+                if isinstance(rp, W.BijectionReparam) and isinstance(rp.bijection, B.Chain):
+                    for m_ in rp.bijection.bijections:
+                        m_u = unwrap(m_)
+                        if isinstance(m_u, B.Loc):
+                            min_scale = float(np.asarray(m_u.loc))
+                if np.all(np.isfinite(sc)) and not (np.all(sc > 0) and np.all(sc >= min_scale * (1 - 1e-6))):
+                    bad.append(("conditioner.scale", f"{tag}: {type(core).__name__} transformer scale {sc.ravel()[:4].tolist()} is not positive / below the configured "
+                                                      f"minimum scale {min_scale}"))
+        return bad
+
     def box_ok(model, lim=50.0):
         p, _ = partition_trainable(model)
         leaves = jax.tree_util.tree_leaves(p)
@@ -228,6 +277,8 @@ def run_shard(shard):
             O.append(("block_neural_autoregressive_flow", lambda k: F.block_neural_autoregressive_flow(k, base_dist=D.StandardNormal((2,)), flow_layers=2, nn_block_dim=2)))
         O.append(("coupling_flow(rqs)", lambda k: F.coupling_flow(k, base_dist=D.StandardNormal((3,)), flow_layers=2, nn_width=5, transformer=B.RationalQuadraticSpline(knots=4, interval=3))))
         O.append(("masked_autoregressive_flow", lambda k: F.masked_autoregressive_flow(k, base_dist=D.Normal(jnp.zeros(3), jnp.ones(3)), flow_layers=2, nn_width=5)))
+        O.append(("masked_autoregressive_flow(cond,fwd)", lambda k: F.masked_autoregressive_flow(k, base_dist=D.StandardNormal((2,)), flow_layers=2, nn_width=4, cond_dim=2, invert=False)))
+        O.append(("coupling_flow(default)", lambda k: F.coupling_flow(k, base_dist=D.StandardNormal((3,)), flow_layers=2, nn_width=5, cond_dim=2)))
         O.append(("planar_flow", lambda k: F.planar_flow(k, base_dist=D.StandardNormal((3,)), flow_layers=3, negative_slope=0.1)))
         return O
 
@@ -281,7 +332,7 @@ def run_shard(shard):
             rec.violation(f"build.{type(e).__name__}", f"{name}: constructor raised {type(e).__name__}: {str(e)[:200]}", it, ("init", 0.0), {})
             continue
         rec.evals += 1
-        report(invariants(model, f"{name} as constructed"), it)
+        report(invariants(model, f"{name} as constructed") + conditioner_layer_invariants(model, f"{name} as constructed"), it)
         if name == "affine_with_min_scale":
             report(min_scale_pred(model, name), it)
         for rep in range(shard["reps"]):
@@ -291,7 +342,7 @@ def run_shard(shard):
                 rec.evals += 1
                 rec.nontrivial.add(chash(name, kind, rep))
                 rec.count("raw_assignments")
-                bad = invariants(m, f"{name} [{kind} raw assignment #{rep}]")
+                bad = invariants(m, f"{name} [{kind} raw assignment #{rep}]") + conditioner_layer_invariants(m, f"{name} [{kind} raw assignment #{rep}]")
                 if name == "affine_with_min_scale":
                     bad += min_scale_pred(m, name)
                 report(bad, dict(it, kind=kind, rep=rep))
@@ -393,7 +444,8 @@ def run_shard(shard):
             model = eqx.combine(new_params, static)
             if box_ok(model):
                 step_counts["steps_checked"] += 1
-                bad = invariants(model, f"{current['tag']} after update #{step_counts['steps_checked']}")
+                bad = invariants(model, f"{current['tag']} after update #{step_counts['steps_checked']}") + \
+                    conditioner_layer_invariants(model, f"{current['tag']} after update #{step_counts['steps_checked']}")
                 if bad and not current["viol"]:
                     current["viol"] = bad
             else:
